@@ -5,7 +5,7 @@ from ..core import rule
 from ..index import AnalysisError, dotted, src, walk_no_nested, names_in
 from ..cfg import CFG, const_env_step, eval3, UNK
 from ..domains import check_pred
-from ..util import node_calls, own_expr, last_name, calls_named, arg, reach_expr, pred_is, reach_conds, explore, mk_atoms
+from ..util import node_calls, own_expr, last_name, calls_named, arg, reach_expr, pred_is, reach_conds, explore, mk_atoms, rename_names
 from .slots import BTM, TAGGING, BAMFUNC, MOLITER, FRAGMENT, MOLECULE
 from . import C05_shared
 
@@ -26,11 +26,131 @@ def mentions(node, name):
     return name in names_in(node)
 
 
+def _job_comprehensions(ctx):
+    """the job list written as comprehensions over the contigs with reads (instead of one construction loop): returns (function,
+    [(comprehension, contig variable, length variable, combined filter expressions)]) or None"""
+    f = ctx.fn(BTM, MP)
+    defs = {s_.targets[0].id: s_.value for s_ in walk_no_nested(f) if isinstance(s_, ast.Assign) and len(s_.targets) == 1 and isinstance(s_.targets[0], ast.Name)}
+
+    def source_filters(it, depth=0):
+        """filters applied between get_contigs_with_reads(...) and the iterable `it` (through locals holding filtered lists), with the
+        names of (contig, length) as bound there; None when `it` does not come from the enumerator"""
+        if depth > 4:
+            return None
+        if isinstance(it, ast.Call) and 'get_contigs_with_reads' in src(it.func):
+            return []
+        if isinstance(it, ast.Name) and it.id in defs:
+            return source_filters(defs[it.id], depth + 1)
+        if isinstance(it, (ast.ListComp, ast.GeneratorExp)) and len(it.generators) == 1 and isinstance(it.generators[0].target, ast.Tuple) \
+                and src(it.elt).replace(' ', '') in (src(it.generators[0].target).replace(' ', ''), '(' + src(it.generators[0].target).replace(' ', '') + ')'):
+            inner = source_filters(it.generators[0].iter, depth + 1)
+            if inner is None:
+                return None
+            return inner + [(t_, [e.id for e in it.generators[0].target.elts if isinstance(e, ast.Name)]) for t_ in it.generators[0].ifs]
+        if isinstance(it, ast.Call) and dotted(it.func) in ('list', 'tuple') and len(it.args) == 1:
+            return source_filters(it.args[0], depth + 1)
+        return None
+    out = []
+    for c in walk_no_nested(f):
+        if isinstance(c, (ast.ListComp, ast.GeneratorExp)) and len(c.generators) == 1 and isinstance(c.generators[0].target, ast.Tuple) and len(c.generators[0].target.elts) == 2:
+            g = c.generators[0]
+            names = [e.id for e in g.target.elts if isinstance(e, ast.Name)]
+            if len(names) != 2 or names[0] not in names_in(c.elt) or not isinstance(c.elt, (ast.Tuple, ast.List)):
+                continue
+            if src(c.elt).replace(' ', '').strip('()') == src(g.target).replace(' ', '').strip('()'):
+                continue            # a filtered copy of the enumeration, not a job list
+            sf = source_filters(g.iter)
+            if sf is None:
+                continue
+            filters = []
+            for t_, nm in sf:
+                # rename the source comprehension's variables to this comprehension's
+                filters.append(rename_names(t_, dict(zip(nm, names))) if nm and len(nm) == 2 else t_)
+            out.append((c, names[0], names[1], filters + list(g.ifs)))
+    return (f, out) if out else None
+
+
 @rule('C05', 'C05-R1', 'one-contig-per-process job list: on every path of the construction loop each contig with reads is put into '
                        'exactly one job (own job or the shared small-contig job) unless it is the unmapped sentinel; the shared job is '
                        'flushed whenever it is non-empty and reset after any in-loop flush')
 def r1(ctx):
-    f, loop = contig_loop(ctx)
+    try:
+        f, loop = contig_loop(ctx)
+    except AnalysisError:
+        jc = _job_comprehensions(ctx)
+        if jc is None:
+            raise
+        _r1_comprehensions(ctx, *jc)
+        _r1_enumerator(ctx)
+        return
+    _r1_loop(ctx, f, loop)
+    _r1_enumerator(ctx)
+
+
+def _r1_comprehensions(ctx, f, sinks):
+    """the job list as comprehensions: the filters of the sinks must partition the contigs (every length in exactly one sink) and exclude '*'"""
+    from ..domains import eval_pred
+    problems = []
+    ncase = 0
+    thr_names = set()
+    for c, cv, lv, filters in sinks:
+        for t_ in filters:
+            thr_names |= {n_ for n_ in names_in(t_) if n_ not in (cv, lv)}
+    for star in (False, True):
+        for L in (0, 1, 2):
+            for T in (1,):
+                hits = 0
+                undec = False
+                for c, cv, lv, filters in sinks:
+                    def atom(x, cv=cv, lv=lv):
+                        t = src(x)
+                        return 'L' if t == lv else ('T' if t in thr_names or (isinstance(x, ast.Constant) and isinstance(x.value, int) and x.value > 1) else None)
+                    ok = True
+                    for t_ in filters:
+                        if cv in names_in(t_) and lv not in names_in(t_):
+                            # the sentinel test
+                            txt = src(t_).replace('"', "'").replace(' ', '')
+                            if txt in (f"{cv}!='*'", f"'*'!={cv}"):
+                                ok = ok and not star
+                            elif txt in (f"{cv}=='*'", f"'*'=={cv}"):
+                                ok = ok and star
+                            else:
+                                undec = True
+                        else:
+                            try:
+                                ok = ok and bool(eval_pred(t_, {'L': L, 'T': T}, atom))
+                            except Exception:
+                                undec = True
+                    hits += 1 if ok else 0
+                ncase += 1
+                if undec:
+                    problems.append(('undecided', f'a filter of the job comprehensions is not a length / sentinel test'))
+                elif star and hits:
+                    problems.append(('violated', "the '*' row of the enumeration is queued as a contig job (unmapped reads written twice)"))
+                elif not star and hits != 1:
+                    rel = {0: 'below', 1: 'equal to', 2: 'above'}[L]
+                    problems.append(('violated', f'a contig whose length is {rel} the small-contig threshold lands in {hits} job lists'))
+    ctx.counters['abstract_cases'] += ncase
+    und = [p_ for p_ in problems if p_[0] == 'undecided']
+    vio = [p_ for p_ in problems if p_[0] == 'violated']
+    ctx.emit('C05-R1', not problems, BTM, sinks[0][0], f'{len(sinks)} job comprehensions over the contigs with reads partition them over {ncase} (sentinel, length vs threshold) cases' if not problems else
+             (vio[0][1] if vio else und[0][1]), key='contig-to-job-once', undecided=bool(und) and not vio,
+             what=f'{MP}: a contig with reads is dropped from / duplicated in the job list')
+    # every sink reaches the job list
+    used = 0
+    mod = ctx.ix.module(BTM)
+    for c, cv, lv, filters in sinks:
+        p_ = mod.parent.get(c)
+        while p_ is not None and not isinstance(p_, ast.stmt):
+            p_ = mod.parent.get(p_)
+        nm = p_.targets[0].id if isinstance(p_, ast.Assign) and isinstance(p_.targets[0], ast.Name) else None
+        if nm == 'job_gen' or (nm and any(isinstance(x, ast.Call) and isinstance(x.func, ast.Attribute) and x.func.attr in ('append', 'extend') and x.args and src(x.args[0]) == nm
+                                          for x in walk_no_nested(f))) or (nm and any(isinstance(s_, ast.Assign) and nm in names_in(s_.value) and src(s_.targets[0]) == 'job_gen' for s_ in walk_no_nested(f))):
+            used += 1
+    ctx.emit('C05-R1', used == len(sinks), BTM, sinks[0][0], f'{used} of {len(sinks)} job comprehensions end up in the job list', key='flush-after-loop:comprehensions')
+
+
+def _r1_loop(ctx, f, loop):
     tgt = loop.target
     cv = tgt.elts[0].id if isinstance(tgt, ast.Tuple) else tgt.id
     cfg = CFG(loop.body, exceptions=False)
@@ -125,6 +245,9 @@ def r1(ctx):
         else:
             ctx.emit('C05-R1', True, BTM, s, f'`{acc}` is flushed unconditionally after the loop', key=f'flush-after-loop:{acc}')
     ctx.need('C05-R1', len(sinks), 2, 'job-list sinks in the contig loop')
+
+
+def _r1_enumerator(ctx):
     # the enumerator: yields every idxstats row that has mapped or unmapped reads
     g = ctx.fn(BAMFUNC, 'get_contigs_with_reads')
     ys = [y for y in walk_no_nested(g) if isinstance(y, ast.Yield)]
